@@ -78,7 +78,15 @@ func (w *world) execVR(f []string) (string, string) {
 	ctx, cancel := context.WithCancel(context.Background())
 	defer cancel()
 	resC := make(chan error, 1)
-	go func() { resC <- l.Wait(ctx) }()
+	panicC := make(chan string, 1)
+	go func() {
+		defer func() {
+			if e := recover(); e != nil {
+				panicC <- fmt.Sprint(e)
+			}
+		}()
+		resC <- l.Wait(ctx)
+	}()
 	line := fmt.Sprintf("vr o%d %s", k, strings.Join(evs, " "))
 	sig := map[string]string{"oracle": "hang", "api": "valuenotifier.Wait", "mode": "forced-schedule"}
 	select {
@@ -121,6 +129,9 @@ func (w *world) execVR(f []string) (string, string) {
 	select {
 	case e := <-resC:
 		res = waitResult(e)
+	case pv := <-panicC:
+		w.fail("panic", "Wait panicked: "+pv, map[string]string{"oracle": "panic", "section": "vr"})
+		res = "panic"
 	case <-time.After(guardWait):
 		w.fail("hang", "released waiter did not return", sig)
 		res = "hang"
